@@ -20,7 +20,7 @@ import os
 import resource
 
 WRITER_MODES = ("raw", "bufw", "bufrw", "append", "bufappend")
-READER_MODES = ("raw", "bufr")
+READER_MODES = ("raw", "bufr", "rw", "bufrw")
 
 
 class SeamBypassed(Exception):
@@ -163,6 +163,10 @@ class SimDisk:
 
     def restart(self, mode="raw"):
         """Fresh open file description at offset 0, as a process started after the crash sees it."""
+        if mode in ("rw", "bufrw"):
+            # the reader opened the file for update ("r+b"): loading must still neither accept nor alter a torn file
+            raw = io.FileIO(os.open(self._name(), os.O_RDWR), "r+", closefd=True)
+            return raw if mode == "rw" else io.BufferedRandom(raw)
         if self.path is not None:
             raw = io.FileIO(self.path, "r")
         else:
